@@ -1,12 +1,556 @@
-//! Extension module (Tier A): owner fills in. Output: coq/gen/SnapFacts.v
+//! Extension module (Tier A) for C08 (snapshot isolation). Output: coq/gen/SnapFacts.v
 //! Contract: return (text of the .v file, report lines). Each report line is one JSON object
 //! {"item":"SnapFacts.<name>","file":"<rust file>","ok":true|false[,"error":"..."]}.
 //! Fail closed: when a site is not recognised, OMIT the Gallina definition (so dependent proofs stop
 //! compiling) and push an ok:false report line.
+//!
+//! Items (all data, no functions):
+//!   push_body        src/lib.rs `EGraph::push`: the statement list, each statement recognised as one
+//!                    of four shapes (anything else fails the item)
+//!   pop_carry        src/lib.rs `EGraph::pop`: `match self.pushed_egraph.take() { Some(mut e) => {
+//!                    mem::swap(&mut self.<path>, &mut e.<path>);* *self = *e; Ok(()) } None => Err(..) }`
+//!                    -> the list of swapped paths (the fields carried over from the live e-graph)
+//!   egraph_fields    src/lib.rs `struct EGraph`: how Clone is obtained (derive / manual impl) and the
+//!                    field list (name, type text, syntactic sharing class)
+//!   bridge_fields    egglog-bridge/src/lib.rs `struct EGraph`, same
+//!   database_fields  core-relations/src/free_join/mod.rs `struct Database`, same
+//!   tableinfo_clone  core-relations/src/free_join/mod.rs `struct TableInfo` + its manual
+//!                    `impl Clone`: per field the initialiser expression of the struct literal
+//!   counters_clone   `impl Clone for Counters`: recognised as "fresh AtomicUsize per entry"
+use quote::ToTokens;
+use std::path::Path;
 
-pub fn generate(_repo: &std::path::Path) -> (String, Vec<String>) {
-    (
-        "(* GENERATED by /verif/translator (x_snap.rs): nothing extracted yet *)\n".to_string(),
-        Vec::new(),
-    )
+const F_SRC: &str = "src/lib.rs";
+const F_BRIDGE: &str = "egglog-bridge/src/lib.rs";
+const F_DB: &str = "core-relations/src/free_join/mod.rs";
+
+fn toks<T: ToTokens>(t: &T) -> String {
+    // canonical text: token stream, spaces removed (types / small expressions only)
+    t.to_token_stream().to_string().replace(' ', "")
+}
+
+fn coq_str(s: &str) -> String {
+    format!("\"{}\"", s.replace('"', "\"\""))
+}
+
+fn parse(repo: &Path, rel: &str) -> Result<syn::File, String> {
+    let src = std::fs::read_to_string(repo.join(rel)).map_err(|e| format!("{rel}: {e}"))?;
+    syn::parse_file(&src).map_err(|e| format!("{rel}: {e}"))
+}
+
+fn is_cfg_verif_or_test(attrs: &[syn::Attribute]) -> bool {
+    attrs.iter().any(|a| a.path().is_ident("cfg") && {
+        let t = toks(&a.meta);
+        t.contains("test")
+    })
+}
+
+/// top-level struct by name (top level of the file only; test modules are not searched)
+fn find_struct<'a>(file: &'a syn::File, name: &str) -> Result<&'a syn::ItemStruct, String> {
+    let mut found = None;
+    for it in &file.items {
+        if let syn::Item::Struct(s) = it {
+            if s.ident == name && !is_cfg_verif_or_test(&s.attrs) {
+                if found.is_some() {
+                    return Err(format!("two top-level structs named {name}"));
+                }
+                found = Some(s);
+            }
+        }
+    }
+    found.ok_or_else(|| format!("struct {name} not found at top level"))
+}
+
+fn derives_clone(s: &syn::ItemStruct) -> bool {
+    s.attrs.iter().any(|a| {
+        a.path().is_ident("derive") && {
+            let t = toks(&a.meta);
+            // derive(Clone, ..) — token text without spaces
+            t.trim_start_matches("derive(")
+                .trim_end_matches(')')
+                .split(',')
+                .any(|d| d == "Clone")
+        }
+    })
+}
+
+/// manual `impl Clone for <name>` at top level
+fn manual_clone<'a>(file: &'a syn::File, name: &str) -> Option<&'a syn::ItemImpl> {
+    for it in &file.items {
+        if let syn::Item::Impl(i) = it {
+            if let Some((_, path, _)) = &i.trait_ {
+                if path.segments.last().map(|s| s.ident == "Clone").unwrap_or(false) {
+                    if let syn::Type::Path(tp) = &*i.self_ty {
+                        if tp.path.segments.last().map(|s| s.ident == name).unwrap_or(false) {
+                            return Some(i);
+                        }
+                    }
+                }
+            }
+        }
+    }
+    None
+}
+
+/// `type Name<..> = Rhs;` aliases at top level: name -> rhs type
+fn aliases(file: &syn::File) -> Vec<(String, syn::Type)> {
+    file.items
+        .iter()
+        .filter_map(|it| match it {
+            syn::Item::Type(t) => Some((t.ident.to_string(), (*t.ty).clone())),
+            _ => None,
+        })
+        .collect()
+}
+
+const HANDLES: &[&str] = &["Arc", "Rc", "Weak", "SharedRef"];
+
+fn outer_ident(ty: &syn::Type) -> Option<String> {
+    match ty {
+        syn::Type::Path(tp) => tp.path.segments.last().map(|s| s.ident.to_string()),
+        syn::Type::Reference(_) | syn::Type::Ptr(_) => Some("&".to_string()),
+        _ => None,
+    }
+}
+
+fn mentions_handle(ty: &syn::Type, al: &[(String, syn::Type)]) -> bool {
+    struct V<'a> {
+        hit: bool,
+        al: &'a [(String, syn::Type)],
+    }
+    impl<'ast, 'a> syn::visit::Visit<'ast> for V<'a> {
+        fn visit_path_segment(&mut self, s: &'ast syn::PathSegment) {
+            let id = s.ident.to_string();
+            if HANDLES.contains(&id.as_str()) {
+                self.hit = true;
+            }
+            if let Some((_, rhs)) = self.al.iter().find(|(n, _)| *n == id) {
+                let mut inner = V { hit: false, al: &[] };
+                syn::visit::visit_type(&mut inner, rhs);
+                if inner.hit {
+                    self.hit = true;
+                }
+            }
+            syn::visit::visit_path_segment(self, s);
+        }
+        fn visit_type_reference(&mut self, _: &'ast syn::TypeReference) {
+            self.hit = true;
+        }
+        fn visit_type_ptr(&mut self, _: &'ast syn::TypePtr) {
+            self.hit = true;
+        }
+    }
+    let mut v = V { hit: false, al };
+    syn::visit::visit_type(&mut v, ty);
+    v.hit
+}
+
+/// syntactic sharing class of a field type: SHandle = the value itself is a reference-counted
+/// handle / reference (after expanding one top-level alias of the same file); SInner = such a
+/// handle occurs inside the type's arguments; SOwned = neither.
+fn share_class(ty: &syn::Type, al: &[(String, syn::Type)]) -> &'static str {
+    let mut outer = outer_ident(ty);
+    if let Some(o) = &outer {
+        if let Some((_, rhs)) = al.iter().find(|(n, _)| n == o) {
+            outer = outer_ident(rhs);
+            if outer.as_deref().map(|o| HANDLES.contains(&o) || o == "&").unwrap_or(false) {
+                return "SHandle";
+            }
+            return if mentions_handle(rhs, &[]) || mentions_handle(ty, al) { "SInner" } else { "SOwned" };
+        }
+    }
+    match outer.as_deref() {
+        Some(o) if HANDLES.contains(&o) || o == "&" => "SHandle",
+        _ => {
+            if mentions_handle(ty, al) {
+                "SInner"
+            } else {
+                "SOwned"
+            }
+        }
+    }
+}
+
+fn struct_item(file: &syn::File, name: &str, def: &str, what: &str) -> Result<String, String> {
+    let s = find_struct(file, name)?;
+    let al = aliases(file);
+    let derive = derives_clone(s);
+    let manual = manual_clone(file, name).is_some();
+    let how = match (derive, manual) {
+        (true, false) => "HDerive",
+        (false, true) => "HManual",
+        (true, true) => return Err(format!("{name}: both derive(Clone) and a manual impl")),
+        (false, false) => return Err(format!("{name}: no Clone found")),
+    };
+    if !s.generics.params.is_empty() {
+        return Err(format!("{name}: generic struct not supported"));
+    }
+    let fields = match &s.fields {
+        syn::Fields::Named(n) => &n.named,
+        _ => return Err(format!("{name}: not a struct with named fields")),
+    };
+    let mut rows = Vec::new();
+    for f in fields {
+        if f.attrs.iter().any(|a| a.path().is_ident("cfg")) {
+            return Err(format!("{name}: field {} is cfg-gated", toks(&f.ident)));
+        }
+        let fname = f.ident.as_ref().ok_or("unnamed field")?.to_string();
+        rows.push(format!(
+            "  ({}, {}, {})",
+            coq_str(&fname),
+            coq_str(&toks(&f.ty)),
+            share_class(&f.ty, &al)
+        ));
+    }
+    // aliases used by the fields' outer identifiers, with their right-hand sides
+    let mut used = Vec::new();
+    for f in fields {
+        if let Some(o) = outer_ident(&f.ty) {
+            if let Some((n, rhs)) = al.iter().find(|(n, _)| *n == o) {
+                used.push(format!("  ({}, {})", coq_str(n), coq_str(&toks(rhs))));
+            }
+        }
+    }
+    Ok(format!(
+        "(* {what} *)\nDefinition {def}_clone_how : clone_how := {how}.\nDefinition {def}_fields : list (string * string * share) := [\n{}\n].\nDefinition {def}_aliases : list (string * string) := [{}{}].\n",
+        rows.join(";\n"),
+        if used.is_empty() { "" } else { "\n" },
+        used.join(";\n"),
+    ))
+}
+
+fn find_method<'a>(file: &'a syn::File, ty: &str, name: &str) -> Result<&'a syn::ImplItemFn, String> {
+    let mut found = None;
+    for it in &file.items {
+        if let syn::Item::Impl(i) = it {
+            if i.trait_.is_some() {
+                continue;
+            }
+            let is_ty = matches!(&*i.self_ty, syn::Type::Path(tp) if tp.path.segments.last().map(|s| s.ident == ty).unwrap_or(false));
+            if !is_ty {
+                continue;
+            }
+            for m in &i.items {
+                if let syn::ImplItem::Fn(f) = m {
+                    if f.sig.ident == name && !f.attrs.iter().any(|a| a.path().is_ident("cfg")) {
+                        if found.is_some() {
+                            return Err(format!("two methods {ty}::{name}"));
+                        }
+                        found = Some(f);
+                    }
+                }
+            }
+        }
+    }
+    found.ok_or_else(|| format!("method {ty}::{name} not found"))
+}
+
+/// `EGraph::push`
+fn push_item(file: &syn::File) -> Result<String, String> {
+    let f = find_method(file, "EGraph", "push")?;
+    let mut out = Vec::new();
+    let mut saved: Option<String> = None; // variable holding the old stack
+    let mut copy: Option<String> = None; // variable holding the clone of self
+    for st in &f.block.stmts {
+        let t = match st {
+            syn::Stmt::Local(l) => {
+                let var = match &l.pat {
+                    syn::Pat::Type(pt) => match &*pt.pat {
+                        syn::Pat::Ident(i) => i.ident.to_string(),
+                        _ => return Err("push: unsupported let pattern".into()),
+                    },
+                    syn::Pat::Ident(i) => i.ident.to_string(),
+                    _ => return Err("push: unsupported let pattern".into()),
+                };
+                let init = l.init.as_ref().ok_or("push: let without initialiser")?;
+                if init.diverge.is_some() {
+                    return Err("push: let-else".into());
+                }
+                let e = toks(&*init.expr);
+                if e == "self.pushed_egraph.take()" && saved.is_none() {
+                    saved = Some(var);
+                    "PTakeStack"
+                } else if e == "self.clone()" && copy.is_none() {
+                    copy = Some(var);
+                    "PCloneSelf"
+                } else {
+                    return Err(format!("push: unrecognised statement `let {var} = {e}`"));
+                }
+            }
+            syn::Stmt::Expr(e, Some(_)) => {
+                let t = toks(e);
+                match (&saved, &copy) {
+                    (Some(s), Some(c)) if t == format!("{c}.pushed_egraph={s}") => "PCopySetStack",
+                    (_, Some(c)) if t == format!("self.pushed_egraph=Some(Box::new({c}))") => "PSelfStackIsCopy",
+                    _ => return Err(format!("push: unrecognised statement `{t}`")),
+                }
+            }
+            other => return Err(format!("push: unrecognised statement `{}`", toks(other))),
+        };
+        out.push(t);
+    }
+    Ok(format!(
+        "(* src/lib.rs EGraph::push *)\nDefinition push_body : list push_stmt := [{}].\n",
+        out.join("; ")
+    ))
+}
+
+/// `&mut self.a.b` / `&mut e.a.b` -> (base, [a; b])
+fn mut_ref_path(e: &syn::Expr) -> Option<(String, Vec<String>)> {
+    let r = match e {
+        syn::Expr::Reference(r) if r.mutability.is_some() => &*r.expr,
+        _ => return None,
+    };
+    let mut path = Vec::new();
+    let mut cur = r;
+    loop {
+        match cur {
+            syn::Expr::Field(f) => {
+                match &f.member {
+                    syn::Member::Named(n) => path.push(n.to_string()),
+                    _ => return None,
+                }
+                cur = &*f.base;
+            }
+            syn::Expr::Path(p) => {
+                let base = p.path.get_ident()?.to_string();
+                path.reverse();
+                return Some((base, path));
+            }
+            _ => return None,
+        }
+    }
+}
+
+/// `Some(mut x)` -> x
+fn some_mut_var(p: &syn::Pat) -> Option<String> {
+    if let syn::Pat::TupleStruct(ts) = p {
+        if ts.path.is_ident("Some") && ts.elems.len() == 1 {
+            if let syn::Pat::Ident(i) = &ts.elems[0] {
+                if i.by_ref.is_none() && i.subpat.is_none() {
+                    return Some(i.ident.to_string());
+                }
+            }
+        }
+    }
+    None
+}
+
+/// `EGraph::pop`
+fn pop_item(file: &syn::File) -> Result<String, String> {
+    let f = find_method(file, "EGraph", "pop")?;
+    if f.block.stmts.len() != 1 {
+        return Err("pop: body is not a single match expression".into());
+    }
+    let m = match &f.block.stmts[0] {
+        syn::Stmt::Expr(syn::Expr::Match(m), None) => m,
+        _ => return Err("pop: body is not a single match expression".into()),
+    };
+    if toks(&*m.expr) != "self.pushed_egraph.take()" {
+        return Err(format!("pop: scrutinee is `{}`", toks(&*m.expr)));
+    }
+    if m.arms.len() != 2 {
+        return Err("pop: expected two arms".into());
+    }
+    let mut carry: Option<Vec<Vec<String>>> = None;
+    let mut none_err = false;
+    for arm in &m.arms {
+        if arm.guard.is_some() {
+            return Err("pop: guarded arm".into());
+        }
+        let pat = toks(&arm.pat);
+        if pat == "None" {
+            let b = toks(&*arm.body);
+            if b.starts_with("Err(Error::Pop(") {
+                none_err = true;
+            } else {
+                return Err(format!("pop: None arm is `{b}`"));
+            }
+        } else if let Some(var) = some_mut_var(&arm.pat) {
+            let blk = match &*arm.body {
+                syn::Expr::Block(b) => &b.block,
+                _ => return Err("pop: Some arm is not a block".into()),
+            };
+            let n = blk.stmts.len();
+            if n < 2 {
+                return Err("pop: Some arm too short".into());
+            }
+            let mut paths = Vec::new();
+            for st in &blk.stmts[..n - 2] {
+                let call = match st {
+                    syn::Stmt::Expr(syn::Expr::Call(c), Some(_)) => c,
+                    other => return Err(format!("pop: unrecognised statement `{}`", toks(other))),
+                };
+                let fun = toks(&*call.func);
+                if !(fun == "std::mem::swap" || fun == "mem::swap") || call.args.len() != 2 {
+                    return Err(format!("pop: unrecognised call `{fun}`"));
+                }
+                let a = mut_ref_path(&call.args[0]).ok_or("pop: swap argument 1 not `&mut x.path`")?;
+                let b = mut_ref_path(&call.args[1]).ok_or("pop: swap argument 2 not `&mut x.path`")?;
+                let ok = (a.0 == "self" && b.0 == var) || (a.0 == var && b.0 == "self");
+                if !ok || a.1 != b.1 || a.1.is_empty() {
+                    return Err(format!("pop: swap of different places `{}`", toks(call)));
+                }
+                paths.push(a.1);
+            }
+            let s1 = toks(&blk.stmts[n - 2]);
+            let s2 = toks(&blk.stmts[n - 1]);
+            if s1 != format!("*self=*{var};") || s2 != "Ok(())" {
+                return Err(format!("pop: Some arm ends with `{s1}` `{s2}`"));
+            }
+            carry = Some(paths);
+        } else {
+            return Err(format!("pop: unrecognised arm pattern `{pat}`"));
+        }
+    }
+    let carry = carry.ok_or("pop: no Some arm")?;
+    if !none_err {
+        return Err("pop: no None => Err(Error::Pop(..)) arm".into());
+    }
+    let rows: Vec<String> = carry
+        .iter()
+        .map(|p| format!("[{}]", p.iter().map(|s| coq_str(s)).collect::<Vec<_>>().join("; ")))
+        .collect();
+    Ok(format!(
+        "(* src/lib.rs EGraph::pop: `match self.pushed_egraph.take()`; Some(mut e): swap each of these\n   paths between self and e, then `*self = *e; Ok(())`; None: Err(Error::Pop) *)\nDefinition pop_carry : list (list string) := [{}].\n",
+        rows.join("; ")
+    ))
+}
+
+/// `impl Clone for TableInfo`: the struct literal's field initialisers
+fn tableinfo_item(file: &syn::File) -> Result<String, String> {
+    let s = find_struct(file, "TableInfo")?;
+    if derives_clone(s) {
+        return Err("TableInfo: derive(Clone) (expected the manual deep-copying impl)".into());
+    }
+    let imp = manual_clone(file, "TableInfo").ok_or("impl Clone for TableInfo not found")?;
+    let fields: Vec<(String, String)> = match &s.fields {
+        syn::Fields::Named(n) => n
+            .named
+            .iter()
+            .map(|f| (f.ident.as_ref().unwrap().to_string(), toks(&f.ty)))
+            .collect(),
+        _ => return Err("TableInfo: not a named-field struct".into()),
+    };
+    let clone_fn = imp
+        .items
+        .iter()
+        .find_map(|m| match m {
+            syn::ImplItem::Fn(f) if f.sig.ident == "clone" => Some(f),
+            _ => None,
+        })
+        .ok_or("TableInfo::clone not found")?;
+    // the last statement must be the struct literal; earlier statements may only be local fn items
+    let n = clone_fn.block.stmts.len();
+    if n == 0 {
+        return Err("TableInfo::clone: empty body".into());
+    }
+    for st in &clone_fn.block.stmts[..n - 1] {
+        match st {
+            syn::Stmt::Item(syn::Item::Fn(_)) => {}
+            other => return Err(format!("TableInfo::clone: unexpected statement `{}`", toks(other))),
+        }
+    }
+    let lit = match &clone_fn.block.stmts[n - 1] {
+        syn::Stmt::Expr(syn::Expr::Struct(l), None) => l,
+        _ => return Err("TableInfo::clone: last expression is not a struct literal".into()),
+    };
+    if lit.rest.is_some() || lit.dot2_token.is_some() {
+        return Err("TableInfo::clone: struct literal with `..`".into());
+    }
+    let mut rows = Vec::new();
+    for (fname, fty) in &fields {
+        let init = lit
+            .fields
+            .iter()
+            .find(|fv| matches!(&fv.member, syn::Member::Named(n) if n == fname))
+            .ok_or_else(|| format!("TableInfo::clone: field {fname} not initialised"))?;
+        rows.push(format!("  ({}, {}, {})", coq_str(fname), coq_str(fty), coq_str(&toks(&init.expr))));
+    }
+    if lit.fields.len() != fields.len() {
+        return Err("TableInfo::clone: literal and struct differ in field count".into());
+    }
+    // the helper that copies an index catalog: its body text is pinned too
+    let helper = clone_fn.block.stmts[..n - 1]
+        .iter()
+        .find_map(|st| match st {
+            syn::Stmt::Item(syn::Item::Fn(f)) if f.sig.ident == "deep_clone_map" => Some(toks(&f.block)),
+            _ => None,
+        })
+        .unwrap_or_default();
+    Ok(format!(
+        "(* core-relations/src/free_join/mod.rs struct TableInfo + impl Clone for TableInfo *)\nDefinition tableinfo_clone : list (string * string * string) := [\n{}\n].\nDefinition tableinfo_deep_clone_map : string := {}.\n",
+        rows.join(";\n"),
+        coq_str(&helper)
+    ))
+}
+
+/// `impl Clone for Counters`
+fn counters_item(file: &syn::File) -> Result<String, String> {
+    let imp = manual_clone(file, "Counters").ok_or("impl Clone for Counters not found")?;
+    let clone_fn = imp
+        .items
+        .iter()
+        .find_map(|m| match m {
+            syn::ImplItem::Fn(f) if f.sig.ident == "clone" => Some(f),
+            _ => None,
+        })
+        .ok_or("Counters::clone not found")?;
+    let body = toks(&clone_fn.block);
+    let fresh = body.contains("AtomicUsize::new(v.load(") && body.contains("map.insert(k,") && body.ends_with("Counters(map)}");
+    if !fresh {
+        return Err(format!("Counters::clone: body not recognised: {body}"));
+    }
+    Ok("(* core-relations/src/free_join/mod.rs impl Clone for Counters: a fresh AtomicUsize per counter,\n   initialised with the current value *)\nDefinition counters_clone_fresh_cells : bool := true.\n".to_string())
+}
+
+pub fn generate(repo: &Path) -> (String, Vec<String>) {
+    let mut rep = Vec::new();
+    let mut out = String::from(
+        "(* GENERATED by /verif/translator (x_snap.rs) from src/lib.rs, egglog-bridge/src/lib.rs,\n   core-relations/src/free_join/mod.rs; do not edit *)\nFrom Coq Require Import List String.\nImport ListNotations.\nOpen Scope string_scope.\n\n(** how a struct gets its Clone *)\nInductive clone_how := HDerive | HManual.\n(** syntactic sharing class of a field type: the value is itself a handle (Arc/Rc/Weak/SharedRef/&,\n    possibly through one type alias) / a handle occurs inside the type / neither *)\nInductive share := SOwned | SHandle | SInner.\n(** statements of EGraph::push: `let a = self.pushed_egraph.take()`, `let mut p = self.clone()`,\n    `p.pushed_egraph = a`, `self.pushed_egraph = Some(Box::new(p))` *)\nInductive push_stmt := PTakeStack | PCloneSelf | PCopySetStack | PSelfStackIsCopy.\n\n",
+    );
+    let mut item = |name: &str, file: &str, res: Result<String, String>, out: &mut String| match res {
+        Ok(t) => {
+            out.push_str(&t);
+            out.push('\n');
+            rep.push(format!("{{\"item\":\"SnapFacts.{name}\",\"file\":\"{file}\",\"ok\":true}}"));
+        }
+        Err(e) => {
+            out.push_str(&format!("(* {name}: FAILED: {} *)\n\n", e.replace("*)", "* )").replace("(*", "( *")));
+            rep.push(format!(
+                "{{\"item\":\"SnapFacts.{name}\",\"file\":\"{file}\",\"ok\":false,\"error\":{:?}}}",
+                e
+            ));
+        }
+    };
+    let src = parse(repo, F_SRC);
+    let bridge = parse(repo, F_BRIDGE);
+    let db = parse(repo, F_DB);
+    let with = |f: &Result<syn::File, String>, g: &dyn Fn(&syn::File) -> Result<String, String>| match f {
+        Ok(file) => g(file),
+        Err(e) => Err(e.clone()),
+    };
+    item("push_body", F_SRC, with(&src, &push_item), &mut out);
+    item("pop_carry", F_SRC, with(&src, &pop_item), &mut out);
+    item(
+        "egraph_fields",
+        F_SRC,
+        with(&src, &|f| struct_item(f, "EGraph", "egraph", "src/lib.rs struct EGraph")),
+        &mut out,
+    );
+    item(
+        "bridge_fields",
+        F_BRIDGE,
+        with(&bridge, &|f| struct_item(f, "EGraph", "bridge", "egglog-bridge/src/lib.rs struct EGraph")),
+        &mut out,
+    );
+    item(
+        "database_fields",
+        F_DB,
+        with(&db, &|f| struct_item(f, "Database", "database", "core-relations/src/free_join/mod.rs struct Database")),
+        &mut out,
+    );
+    item("tableinfo_clone", F_DB, with(&db, &tableinfo_item), &mut out);
+    item("counters_clone", F_DB, with(&db, &counters_item), &mut out);
+    (out, rep)
 }
